@@ -2,6 +2,7 @@
   SatC11 — the model's step against `Spec.C11.check` (funding settles on schedule, exactly, charged once).
 -/
 import Perp.Props.SatFlows
+import Perp.Props.TxLog
 
 namespace Perp.Props.SatC11
 open Perp Perp.World Perp.Engine Perp.Spec Perp.Spec.W Perp.Props.ModelStep
@@ -208,15 +209,72 @@ theorem collEntry_transferFromMsg (ife : Nat) (c : Config) (o r a : Nat) :
 def BufferHalf (w : World) : Prop :=
   ∀ a x, w.vamm? a = some x → x.cfg.fundingBuffer = x.cfg.fundingPeriod / 2
 
-/-- **precondition** used by `sat_C11` (clauses `funding-payment-…`): no native coins are attached to the
-    PayFunding call.  The entry point is not payable-checked: attached coins are first sent to the vault by
-    the host (an extra entry `(sender, ENGINE, amount)` in the transfer list, and a larger vault balance
-    for the cap), which is a donation by the caller and not part of the settlement the property describes. -/
-def NoFundsAttached (w : World) (f : Funds) (tx : Tx) : Prop :=
-  ∀ v, tx = .engine (.payFunding v) → ¬ (w.engine.cfg.native = true ∧ f.amount ≠ 0)
+/- (The former precondition `NoFundsAttached` — "no native coins are attached to the PayFunding call" — is
+   gone: `Spec.C11.check` now tolerates attached coins.  The entry point is not payable-checked: attached
+   coins are first sent to the vault by the host — one more entry `(sender, ENGINE, amount)` at the head of
+   the transfer list, and a vault that is larger by that amount for the cap on the payment, unless the
+   sender is the vault itself (a self-transfer leaves the balance as it is, `TxLog.move_balance`).
+   `SatEWitness.c11_funds_attached_ok` replays the former counterexample.) -/
+
+/-- native coins attached to the call, as the host moves them (`execute_wasm`: native collateral only) -/
+def att (w : World) (f : Funds) : Nat := if w.engine.cfg.native = true then f.amount else 0
+
+/-- the transfer the host executes before the handler runs -/
+def attLog (w : World) (s : Nat) (f : Funds) : List (Nat × Nat × Nat) :=
+  if att w f = 0 then [] else [(s, ENGINE, att w f)]
+
+/-- the vault balance the handler sees -/
+def vaultAt (w : World) (s : Nat) (f : Funds) : Nat :=
+  w.ledger.balance ENGINE + (if s = ENGINE then 0 else att w f)
+
+/-- the start of an engine transaction, exactly: the pre-state at the transaction's block, with the attached
+    coins moved to the vault and logged -/
+theorem engine_start_att (w w' : World) (env : Env) (s : Nat) (f : Funds) (m : ExecMsg)
+    (h : applyTx w env s f (.engine m) = .ok w') :
+    ∃ (g : Ledger) (e1 : E) (subs : List SubMsg),
+      g.balance ENGINE = vaultAt w s f
+      ∧ execute ({ w with env := env, log := attLog w s f, ledger := g } : World).q w.engine env s f m = .ok (e1, subs)
+      ∧ execSubs FUEL { w with env := env, log := attLog w s f, ledger := g, engine := e1 } ENGINE subs = .ok w' := by
+  unfold applyTx at h
+  dsimp only at h
+  split at h
+  · rename_i hc
+    simp at h
+    obtain ⟨w1, hg, e', subs, hex, h⟩ := h
+    obtain ⟨⟨w1', ev⟩, hg', rfl⟩ := (exmap_ok _ _ _).1 hg
+    have hg'' : execMsg (39 + 1) { w with env := env, log := [] } s (.bankSend ENGINE f.amount) = .ok (w1', ev) := hg'
+    unfold execMsg at hg''
+    simp at hg''
+    obtain ⟨g, hgl, rfl, _⟩ := hg''
+    have hatt : att w f = f.amount := by unfold att; rw [if_pos hc.1]
+    have hlog : attLog w s f = [(s, ENGINE, f.amount)] := by unfold attLog; rw [hatt, if_neg hc.2]
+    rw [hlog]
+    refine ⟨g, e', subs, ?_, hex, h⟩
+    unfold Ledger.bankSend at hgl
+    rw [if_neg hc.2] at hgl
+    have hb := TxLog.move_balance _ _ _ _ _ ENGINE hgl
+    unfold vaultAt
+    rw [hatt]
+    rw [if_pos rfl] at hb
+    by_cases hs : s = ENGINE
+    · rw [if_pos hs.symm] at hb; rw [if_pos hs]; omega
+    · rw [if_neg (fun hh => hs hh.symm)] at hb; rw [if_neg hs]; omega
+  · rename_i hc
+    simp at h
+    obtain ⟨e', subs, hex, h⟩ := h
+    have hatt : att w f = 0 := by
+      unfold att
+      by_cases hn : w.engine.cfg.native = true
+      · rw [if_pos hn]; exact Decidable.byContradiction (fun h0 => hc ⟨hn, h0⟩)
+      · rw [if_neg hn]
+    have hlog : attLog w s f = [] := by unfold attLog; rw [if_pos hatt]
+    rw [hlog]
+    refine ⟨w.ledger, e', subs, ?_, hex, h⟩
+    unfold vaultAt
+    rw [hatt]
+    split <;> rfl
 
 theorem payFunding_core (w w' : World) (env : Env) (s : Nat) (f : Funds) (v : Nat)
-    (hnf : ¬ (w.engine.cfg.native = true ∧ f.amount ≠ 0))
     (h : applyTx w env s f (.engine (.payFunding v)) = .ok w') :
     ∃ (x x' : Vamm.V) (pf : Integer), w.vamm? v = some x ∧ w'.vamm? v = some x'
       ∧ x.st.nextFunding ≤ env.time ∧ env.time + x.cfg.fundingBuffer ≤ x'.st.nextFunding
@@ -225,17 +283,17 @@ theorem payFunding_core (w w' : World) (env : Env) (s : Nat) (f : Funds) (v : Na
           ∧ pf.toInt = Int.tdiv (((tw : Int) - (u : Int)) * (x.cfg.fundingPeriod : Int)) 86400)
       ∧ (latestCum w'.engine v).toInt = (latestCum w.engine v).toInt + pf.toInt
       ∧ ((EngineMoney.trunc (x.st.net.toInt * pf.toInt) (w.engine.cfg.decimals : Int) < 0 →
-            w'.log = [(w.engine.cfg.insuranceFund, ENGINE,
+            w'.log = attLog w s f ++ [(w.engine.cfg.insuranceFund, ENGINE,
                        (EngineMoney.trunc (x.st.net.toInt * pf.toInt) (w.engine.cfg.decimals : Int)).natAbs)])
-        ∧ (EngineMoney.trunc (x.st.net.toInt * pf.toInt) (w.engine.cfg.decimals : Int) = 0 → w'.log = [])
+        ∧ (EngineMoney.trunc (x.st.net.toInt * pf.toInt) (w.engine.cfg.decimals : Int) = 0 → w'.log = attLog w s f)
         ∧ (0 < EngineMoney.trunc (x.st.net.toInt * pf.toInt) (w.engine.cfg.decimals : Int) →
-            w'.log = [(ENGINE, w.engine.cfg.insuranceFund,
-                       (if w.ledger.balance ENGINE
+            w'.log = attLog w s f ++ [(ENGINE, w.engine.cfg.insuranceFund,
+                       (if vaultAt w s f
                             < (EngineMoney.trunc (x.st.net.toInt * pf.toInt) (w.engine.cfg.decimals : Int)).natAbs
-                        then w.ledger.balance ENGINE
+                        then vaultAt w s f
                         else (EngineMoney.trunc (x.st.net.toInt * pf.toInt) (w.engine.cfg.decimals : Int)).natAbs))])) := by
-  obtain ⟨e1, subs, hex, hrun⟩ := engine_start_nofunds w w' env s f _ hnf h
-  have hex' : payFunding ({ w with env := env, log := [] } : World).q w.engine v = .ok (e1, subs) := hex
+  obtain ⟨g, e1, subs, hgb, hex, hrun⟩ := engine_start_att w w' env s f _ h
+  have hex' : payFunding ({ w with env := env, log := attLog w s f, ledger := g } : World).q w.engine v = .ok (e1, subs) := hex
   obtain ⟨h1, h2⟩ := WorldInv.payFunding_frame _ _ _ _ hex'
   dsimp only at h1 h2
   subst h1 h2
@@ -246,8 +304,8 @@ theorem payFunding_core (w w' : World) (env : Env) (s : Nat) (f : Funds) (v : Na
   have he2 : w2.engine = w.engine := by rw [hw2]; rfl
   have hv2 : w2.env = env := by rw [hw2]; rfl
   have hvm2 : w2.vamm? v = some x' := by rw [hw2]; exact MirrorP.setVamm_vamm_same _ _ _ _ hxv
-  have hl2 : w2.ledger = w.ledger := by rw [hw2]; rfl
-  have hg2 : w2.log = [] := by rw [hw2]; rfl
+  have hl2 : w2.ledger = g := by rw [hw2]; rfl
+  have hg2 : w2.log = attLog w s f := by rw [hw2]; rfl
   have hi2 : w2.ifund = w.ifund := by rw [hw2]; rfl
   rw [he2, hv2] at hrep
   have hrep' : payFundingReply w2.q w.engine env pf v = .ok (e3, subs3) := hrep
@@ -278,16 +336,15 @@ theorem payFunding_core (w w' : World) (env : Env) (s : Nat) (f : Funds) (v : Na
     have g1' : w.engine.cfg.insuranceFund = IFUND := by rw [← hcfg3]; exact g1
     have g2' : ENGINE = w2.ifund.engine := g2
     rw [hg2, ← g2', g1']
-    rfl
   · intro hp
     rw [hzero hp] at hs2
     rw [WorldInv.execSubs_nil _ _ _ _ hs2]
     exact hg2
   · intro hp
     obtain ⟨bal, hbal, hm⟩ := hpos hp
-    have hbal' : w2.q.balance ENGINE_ADDR = .ok (w.ledger.balance ENGINE) := by
+    have hbal' : w2.q.balance ENGINE_ADDR = .ok (vaultAt w s f) := by
       show Except.ok (w2.ledger.balance ENGINE_ADDR) = _
-      rw [hl2]; rfl
+      rw [hl2, ← hgb]; rfl
     rw [hbal'] at hbal
     injection hbal with hbal
     subst hbal
@@ -297,7 +354,6 @@ theorem payFunding_core (w w' : World) (env : Env) (s : Nat) (f : Funds) (v : Na
     rw [hlog, collEntry_transferMsg]
     show w2.log ++ _ = _
     rw [hg2]
-    rfl
 
 
 theorem chk_true (c : Bool) (tag : String) (h : c = true) : W.chk c tag = [] := by
@@ -309,21 +365,43 @@ theorem min_toNat (B : Nat) (P : Int) (hP : 0 < P) :
   · rw [if_pos h, if_pos (by omega)]; simp
   · rw [if_neg h, if_neg (by omega)]; omega
 
+/-- the property's transfer-list prefix is the host's attachment transfer -/
+theorem spec_pre (w : World) (s : Nat) (f : Funds) :
+    (if ((if w.engine.cfg.native = true then f.amount else 0) == 0) = true then []
+      else [(s, ENGINE, if w.engine.cfg.native = true then f.amount else 0)]) = attLog w s f := by
+  unfold attLog att
+  by_cases h : (if w.engine.cfg.native = true then f.amount else 0) = 0
+  · rw [if_pos h, if_pos (by rw [h]; rfl)]
+  · rw [if_neg h, if_neg (by simpa using h)]
+
+/-- the property's vault is the balance the handler sees -/
+theorem spec_vault (w : World) (s : Nat) (f : Funds) :
+    (w.ledger.balance ENGINE : Int)
+      + (if (s == ENGINE) = true then 0 else (((if w.engine.cfg.native = true then f.amount else 0 : Nat)) : Int))
+    = ((vaultAt w s f : Nat) : Int) := by
+  unfold vaultAt att
+  by_cases h : s = ENGINE
+  · subst h; simp
+  · rw [if_neg (by simpa using h), if_neg h]; simp
+
 theorem check_payFunding (w w' : World) (env : Env) (s : Nat) (f : Funds) (v : Nat)
-    (hbh : BufferHalf w) (hnf : ¬ (w.engine.cfg.native = true ∧ f.amount ≠ 0))
+    (hbh : BufferHalf w)
     (h : applyTx w env s f (.engine (.payFunding v)) = .ok w') :
     Spec.C11.check (okStep w w' env s f (.engine (.payFunding v))) = [] := by
   obtain ⟨x, x', pf, hxv, hyv, t1, t2, ⟨u, tw, hu, htw, hpf⟩, hcum, hneg, hzero, hpos⟩ :=
-    payFunding_core w w' env s f v hnf h
+    payFunding_core w w' env s f v h
   have hb := hbh v x hxv
   have hpf' : (latestCum w'.engine v).toInt - (latestCum w.engine v).toInt = pf.toInt := by omega
-  simp only [Spec.C11.check, W.engineMsg, okStep, W.preAt, W.ifd, W.bal, hxv, hyv, htw, hu, hpf', W.trunc]
+  unfold Spec.C11.check
+  dsimp +instances only [okStep, W.engineMsg, W.preAt, W.ifd, W.bal]
+  simp only [hxv, hyv, htw, hu, hpf', W.trunc]
   simp only [EngineMoney.trunc] at hneg hzero hpos
   rw [if_neg (by decide)]
   refine List.append_eq_nil_iff.2 ⟨List.append_eq_nil_iff.2 ⟨List.append_eq_nil_iff.2 ⟨?_, ?_⟩, ?_⟩, ?_⟩
   · exact chk_true _ _ (by simpa using t1)
   · exact chk_true _ _ (by rw [← hb]; simpa using t2)
   · exact chk_true _ _ (by rw [hpf]; simp)
+  rw [spec_pre, spec_vault]
   by_cases hp : Int.tdiv (x.st.net.toInt * pf.toInt) (w.engine.cfg.decimals : Int) > 0
   · rw [if_pos hp, hpos hp]
     apply chk_true
@@ -336,7 +414,7 @@ theorem check_payFunding (w w' : World) (env : Env) (s : Nat) (f : Funds) (v : N
       simp
     · rw [if_neg hn, hzero (by omega)]
       apply chk_true
-      rfl
+      simp
 
 
 /-! ### OpenPosition -/
@@ -837,7 +915,7 @@ theorem check_other (st : Step) (h1 : ∀ v side m l b, st.tx ≠ .engine (.open
     second leg that rounds the size to 0 — outcomes the final margin-ratio guard lets through only with a
     maintenance ratio of 0 — are no longer taken for "closed by a reversal".) -/
 theorem sat_C11 (w : World) (env : Env) (s : Nat) (f : Funds) (tx : Tx)
-    (hbh : BufferHalf w) (hnf : NoFundsAttached w f tx) (hso : SenderOutside w s) (hnz : NoZeroVamm w) :
+    (hbh : BufferHalf w) (hso : SenderOutside w s) (hnz : NoZeroVamm w) :
     Spec.C11.check (modelStep w env s f tx) = [] := by
   cases hx : applyTx w env s f tx with
   | error e =>
@@ -857,14 +935,14 @@ theorem sat_C11 (w : World) (env : Env) (s : Nat) (f : Funds) (tx : Tx)
         · simp [h1]
     · by_cases hp : ∃ v, tx = .engine (.payFunding v)
       · obtain ⟨v, rfl⟩ := hp
-        exact check_payFunding w w' env s f v hbh (hnf v rfl) hx
+        exact check_payFunding w w' env s f v hbh hx
       · exact check_other _ (fun v side m l b hh => ho ⟨v, side, m, l, b, hh⟩) (fun v hh => hp ⟨v, hh⟩)
 
 /-- **C11, general form** — without the deployment facts `SenderOutside` and `NoZeroVamm`: only the
     reversal-payout clause can fail (a sender that is one of the pools; a record stored under vAMM address 0,
     `SatEWitness.c11_needs_noZeroVamm`) -/
 theorem C11_tags (w : World) (env : Env) (s : Nat) (f : Funds) (tx : Tx)
-    (hbh : BufferHalf w) (hnf : NoFundsAttached w f tx) :
+    (hbh : BufferHalf w) :
     ∀ tag ∈ Spec.C11.check (modelStep w env s f tx), tag ∈ ["funding-skipped-when-closing-by-reversal"] := by
   cases hx : applyTx w env s f tx with
   | error e =>
@@ -884,7 +962,7 @@ theorem C11_tags (w : World) (env : Env) (s : Nat) (f : Funds) (tx : Tx)
         exact List.mem_singleton.2 rfl
     · by_cases hp : ∃ v, tx = .engine (.payFunding v)
       · obtain ⟨v, rfl⟩ := hp
-        rw [check_payFunding w w' env s f v hbh (hnf v rfl) hx]
+        rw [check_payFunding w w' env s f v hbh hx]
         intro tag ht; cases ht
       · rw [check_other _ (fun v side m l b hh => ho ⟨v, side, m, l, b, hh⟩) (fun v hh => hp ⟨v, hh⟩)]
         intro tag ht; cases ht
